@@ -11,7 +11,8 @@ EXTENDS Signer, Json
 
 CONSTANTS Cases,      \* set of [coin, shape, ht, mech]: what a behaviour starts from
           Mode,       \* "ord" | "prod" | "lim": which passes are explored (below)
-          PruneNoop   \* stop a behaviour after a pass that changes nothing
+          PruneNoop,  \* stop a behaviour after a pass that changes nothing
+          WithPairs   \* "ord": also passes supplying the first and last listed keys together
 
 VARIABLES case, acts, outs, alive
 rvars == <<vars, case, acts, outs, alive>>
@@ -29,7 +30,7 @@ Plain(mech, K, I, ht, scr) == IF mech = "keychain" THEN P(mech, {}, I, ht, scr, 
 
 \* "ord": orderings.  One hash type and mechanism per behaviour; every single key (listed
 \* or wrong), some key pairs, all keys at once; every subset of the inputs asked for.
-OrdKeySets == {{k} : k \in Keys} \cup {AllListed, FirstKeys \cup LastKeys}
+OrdKeySets == {{k} : k \in Keys} \cup {AllListed} \cup (IF WithPairs THEN {FirstKeys \cup LastKeys} ELSE {})
 OrdPasses == {Plain(case.mech, K, I, case.ht, TRUE) : K \in OrdKeySets, I \in (SUBSET Ins) \ {{}}}
 
 \* "prod": the product puzzle kind x key form x hash type x mechanism x coin, short behaviours:
@@ -94,8 +95,8 @@ RSpec == RInit /\ [][RNext]_rvars
 MSKinds == <<"ms_bare", "ms_p2sh", "ms_p2wsh", "ms_p2sh_p2wsh">>
 HTSeq == <<1, 2, 3, 129, 130, 131>>
 MechSeq == <<"lookup", "wifs", "keychain">>
-MNq == <<<<1, 2>>, <<2, 2>>, <<2, 3>>, <<3, 3>>>>
-MNt == MNq \o <<<<1, 1>>, <<1, 3>>>>
+MNq == <<<<1, 2>>, <<2, 3>>, <<3, 3>>>>
+MNt == MNq \o <<<<2, 2>>, <<1, 1>>, <<1, 3>>>>
 KeysOf(n, a) == IF a % 2 = 0 THEN [j \in 1..n |-> j] ELSE [j \in 1..n |-> n + 1 - j]
 Second == << D("p2pkh", 1, <<1>>, "c"), D("p2wpkh", 1, <<4>>, "c"), D("p2pk", 1, <<4>>, "u"),
              D("p2sh_p2wpkh", 1, <<1>>, "c"), D("p2pkh", 1, <<4>>, "u"), D("p2pk", 1, <<1>>, "c") >>
@@ -125,6 +126,7 @@ LimCases(coins, mn, walks) ==
       c \in coins, kd \in MultiKinds, x \in mn, f \in Forms, w \in 1..walks}
 \* one trivial behaviour per coin (the harness reads PolicyFlags(coin) from it)
 FlagCases == {[coin |-> c, walk |-> 1, shape |-> <<D("p2pkh", 1, <<1>>, "c")>>, ht |-> 1, mech |-> "lookup"] : c \in AllCoins}
-LimCasesQ == LimCases({"BTC", "BCH"}, {<<15, 15>>, <<20, 20>>, <<9, 12>>, <<7, 7>>, <<8, 15>>, <<2, 16>>}, 4)
+LimCasesQ == LimCases({"BTC"}, {<<15, 15>>, <<20, 20>>, <<9, 12>>, <<7, 7>>, <<8, 15>>, <<2, 16>>}, 3)
+             \cup LimCases({"BCH", "BTG"}, {<<15, 15>>, <<9, 12>>}, 2)
 LimCasesT == LimCases(AllCoins, LimMN, 8)
 =============================================================================
